@@ -315,6 +315,7 @@ def verify_function(E: Engine, q: str) -> dict:
     E.verifying = q
     E.nl = c.nl
     E.spec_default_reads = c.default_reads
+    E.exists_mem_patterns = c.exists_mem_patterns
     fn, mod, cls, st = entry_state(E, q, c)
     # attachment checks
     nloops = len(loops_of(fn))
